@@ -10,6 +10,11 @@ def handle (args : List String) : Option String :=
   | "serve" :: rest => do
     let o ← handleServe rest
     pure s!"{encWritten o.written} {encStop o.result}"
+  -- the output is closed / was left inside an element before Serve, or a handler closes it or
+  -- writes half an element: `servex <state> <ns> <localBare> <jidmap> <toks> <progs>`
+  | "servex" :: rest => do
+    let o ← handleServeX rest
+    pure s!"{o.invs.length} {encWritten o.written} {encStop o.result}"
   | "servew" :: rest => do
     let o ← handleServeW rest
     pure s!"{o.invs.length} {encWritten o.written} {encStop o.result}"
@@ -18,15 +23,28 @@ def handle (args : List String) : Option String :=
     let dl := if o.delivered.isEmpty then "-" else ",".intercalate (o.delivered.map XmppModel.Xml.hexF)
     pure s!"{encWritten o.out.written} {encStop o.out.result} {dl}"
   | "elem" :: mode :: ns :: lb :: jm :: toks :: [prog] => do
+    let ws := decWs ns
     let ns ← decNs ns
     let lb ← XmppModel.Xml.unhexF (if lb == "-" then "" else lb)
     let jm ← decJidMap jm
-    let toks ← XmppModel.Xml.decToks toks
+    let toks ← (XmppModel.Xml.decToks toks).map (wsInput ws)
     let p ← decProg prog
     let cfg : Cfg := { ns := ns, localBare := lb, jidCanon := jidOracle jm }
     let eff ←
       if mode == "d" then some p
-      else if mode == "r" || mode == "u" then
+      -- `Serve(nil)`: the session's own do-nothing handler, whatever the program says
+      else if mode == "n" then some nilHandlerProg
+      -- a multiplexer whose handler is registered for get and set with the payload {urn:q}q only
+      -- (`p`), or for get only with the wildcard payload (`t`)
+      else if mode == "p" || mode == "t" then
+        (let reg : MuxReg := if mode == "p" then { types := ["get", "set"], payload := some ⟨"urn:q", "q"⟩ }
+                             else { types := ["get"], payload := none }
+         match firstElem cfg toks with
+         | some (n, as, body) => some (muxEffectiveG reg cfg n as body p)
+         | none => some p)
+      -- `x`: a router of the application's own that calls `ServeMux.IQHandler` directly, nothing
+      -- registered: the library's default handler, as behind the multiplexer's own router
+      else if mode == "r" || mode == "u" || mode == "x" then
         (match firstElem cfg toks with
          | some (n, as, body) => some (muxEffective (mode == "r") cfg n as body p)
          | none => some p)
